@@ -350,7 +350,7 @@ func contains(l []string, s string) bool {
 
 func writeEvidence(spec *PropSpec, opts RunOpts, items []Item, results []*ItemResult, known []Finding, inconc []string, validated int, wall float64, nviol int) {
 	cov := map[string]interface{}{}
-	var paths, steps, obl, dis, triv, relaxed int
+	var paths, steps, obl, dis, triv, relaxed, collOnly int
 	var qs QueryStats
 	funcs := map[string]bool{}
 	var samples []interface{}
@@ -365,6 +365,7 @@ func writeEvidence(spec *PropSpec, opts RunOpts, items []Item, results []*ItemRe
 		dis += r.Discharged
 		triv += r.Trivial
 		relaxed += r.Relaxed
+		collOnly += r.CollisionOnly
 		qs.add(&r.Stats)
 		for f := range r.Funcs {
 			if !strings.Contains(f, "verif") && !strings.Contains(f, "Verif") {
@@ -402,6 +403,7 @@ func writeEvidence(spec *PropSpec, opts RunOpts, items []Item, results []*ItemRe
 	cov["discharged"] = dis
 	cov["trivially_discharged"] = triv
 	cov["discharged_in_real_rounding_error_model"] = relaxed
+	cov["satisfiable_only_through_uf_collisions"] = collOnly
 	cov["functions_encoded"] = fl
 	cov["work_items"] = len(items)
 	cov["shapes_per_harness"] = shapesBy
